@@ -21,6 +21,52 @@ SUPPORTED = {"Ubits": ("offset", "bitlen"), "Uscaled": ("offset", "bitlen", "shi
              "CUbits": ("bitlen",), "CSscaled": ("bitlen", "shift"), "CUrange": ("min", "max"),
              "Ufields": ("bitfields",), "Ulist": ("offset", "options"), "Usum": ("offset", "bitlen"), "CUsum": ("bitlen",)}
 COUPLED = {"Usum", "CUsum"}
+# the special immediates whose literal is an integer (float literals enter through as_float and an f32 cast: not translated;
+# the literal path of INVERTED_WIDE_IMMEDIATE_X is switched off in the source)
+SPECIAL_INT = {"WIDE_IMMEDIATE_W": ("encode_wide_immediate_32bit", "u32"), "WIDE_IMMEDIATE_X": ("encode_wide_immediate_64bit", "u64"),
+               "INVERTED_WIDE_IMMEDIATE_W": ("encode_wide_immediate_32bit", "u32"), "STRETCHED_IMMEDIATE": ("encode_stretched_immediate", "u64"),
+               "LOGICAL_IMMEDIATE_W": ("encode_logical_immediate_32bit", "u32"), "LOGICAL_IMMEDIATE_X": ("encode_logical_immediate_64bit", "u64")}
+HELPERS_SRC = "/repo/plugin/src/arch/aarch64/encoding_helpers.rs"
+
+
+def translate_special(text, helpers, offset, kind):
+    """the literal branch of one arm of handle_special_immediates; falling out of the match is the error"""
+    fn, pty = SPECIAL_INT[kind]
+    body = rt.fn_body(text, "handle_special_immediates")
+    m = re.search(r"SpecialComm::" + kind + r"\s*=>\s*if\s+let\s+Some\(number\)\s*=\s*as_unsigned_number\(imm\)\s*\{", body)
+    if not m:
+        raise Untranslatable(f"Special {kind}: the literal is no longer taken with as_unsigned_number")
+    i = m.end() - 1
+    blk = body[i + 1:rt.matching(body, i) - 1].strip()
+    if not re.search(r"emit_error!\(imm,[^;]*\);\s*Err\(None\)\s*$", body.strip()):
+        raise Untranslatable("handle_special_immediates no longer ends in the error")
+    s = SSym(helpers, True)
+    s.env["offset"] = rx.Val(const(offset, 8), TYPES["u8"])
+    s.env["number"] = rx.Val(rx.var("v", 64), TYPES["u64"])
+    guard = btrue()
+    mg = re.fullmatch(r"if\s+(number\s*<=\s*u64::from\(u32::MAX\))\s*\{(.*)\}", blk, flags=re.S)
+    if mg:
+        g = mg.group(1).replace("u32::MAX", "0xFFFF_FFFFu32")
+        guard = s.run(rx.parse(g)).n
+        blk = mg.group(2).strip()
+    mi = re.fullmatch(r"if\s+let\s+Some\(encoded\)\s*=\s*encoding_helpers::" + fn + r"\((.*?)\)\s*\{(.*?)return\s+Ok\(\(\)\);\s*\}", blk, flags=re.S)
+    if not mi:
+        raise Untranslatable(f"Special {kind}: literal branch shape: {' '.join(blk.split())[:120]}")
+    arg = s.coerce(s.run(rx.parse(mi.group(1))), TYPES[pty])
+    htext = rt.strip_comments(open(HELPERS_SRC).read())
+    d = immtrans.translate_fn(htext, fn, pty, helpers, True, arg=arg)
+    s.env["encoded"] = rx.Val(d["val"], (d["w"], False))
+    word = const(0, 32)
+    pushes = re.findall(r"statics\.push\(\((.*?),\s*(.*?)\)\);", mi.group(2), flags=re.S)
+    if not pushes:
+        raise Untranslatable(f"Special {kind}: nothing pushed")
+    for off, expr in pushes:
+        o = fold(s.coerce(s.run(rx.parse(off)), TYPES["u8"]).n)
+        v = s.coerce(s.run(rx.parse(expr)), TYPES["u32"])
+        if o.op != "const" or o.k >= 32 or v.ty[0] != 32:
+            raise Untranslatable(f"Special {kind}: push ({off}, {expr})")
+        word = N("or", (word, N("shl", (v.n, const(o.k, 32)), 32)), 32)
+    return fold(band(guard, d["ok"])), fold(word), fold(bor(s.panic, band(guard, d["panic"])))
 
 
 class SSym(immtrans.ISym):
@@ -62,6 +108,8 @@ def arm_text(text, name):
 
 def translate_arm(text, helpers, chk, name, args):
     """returns (ok IR, contribution IR (32 bit) or None) over the variable v (64 bit)"""
+    if name == "Special":
+        return translate_special(text, helpers, args[0], args[1])
     arm = arm_text(text, name)
     m_if = re.search(r"\bif\b", arm)
     if not m_if:
@@ -201,13 +249,13 @@ def groups_of_table():
             continue
         for idx, g in sorted(encgen.group_commands(rustdebug.parse(r["commands"])).items()):
             names = [encgen.name_of(c) for c in g]
-            if not names or not all(n in SUPPORTED for n in names):
+            if not names or not all(n in SUPPORTED or (n == "Special" and c[2] in SPECIAL_INT) for n, c in zip(names, g)):
                 continue
             key = encgen.lean_cmds(g)
             if key in seen:
                 continue
             seen.add(key)
-            out.append((key, [(c[0], [x if isinstance(x, list) else int(x) for x in c[1:]]) for c in g]))
+            out.append((key, [(c[0], [x if isinstance(x, (list, str)) and not str(x).lstrip("-").isdigit() else int(x) for x in c[1:]]) for c in g]))
     return out
 
 
@@ -233,7 +281,7 @@ def translate_all():
             ok = band(ok, o)
             if v is not None:
                 val = N("or", (val, v), 32)
-        out.append((key, fold(ok), fold(val), fold(pan), any(n in COUPLED for (n, _) in g)))
+        out.append((key, fold(ok), fold(val), fold(pan), any(n in COUPLED for (n, _) in g), any(n == "Special" for (n, _) in g)))
     return out
 
 
@@ -244,7 +292,7 @@ def emit_lean(tr, path):
          "set_option maxRecDepth 100000", "set_option maxHeartbeats 1000000",
          "namespace DynasmVerif.A64Static", "open DynasmVerif.A64 DynasmVerif.A64Enc DynasmVerif.Enc", ""]
     names = []
-    for k, (key, ok, val, pan, coupled) in enumerate(tr):
+    for k, (key, ok, val, pan, coupled, special) in enumerate(tr):
         L.append(f"/-- `{key}` -/")
         if coupled:
             # `prev` = the previous (literal) operand the command is coupled to
@@ -263,12 +311,18 @@ def emit_lean(tr, path):
         L.append(f"def sg{k}_ok (v : BitVec 64) : Bool := {rx.lean(ok)}")
         L.append(f"def sg{k}_val (v : BitVec 64) : BitVec 32 := {rx.lean(val)}")
         L.append(f"def sg{k}_overflow (v : BitVec 64) : Bool := {rx.lean(pan)}")
+        if special:
+            L.append("set_option maxHeartbeats 8000000 in")
         L.append(f"theorem sg{k}_is_model (v : BitVec 64) :")
         L.append(f"    sg{k}_ok v = (slotStatic {key} 0#64 v).1 ∧ (sg{k}_ok v = true → sg{k}_val v = (slotStatic {key} 0#64 v).2) ∧")
         L.append(f"    (sg{k}_overflow v = true → sg{k}_ok v = false) := by")
         L.append(f"  simp only [sg{k}_ok, sg{k}_val, sg{k}_overflow]")
         L.append("  enc_unfold")
-        L.append("  bv_decide (config := { timeout := 120 })")
+        if special:
+            L.append("  try simp only [" + ", ".join(f"DynasmVerif.A64Imm.{ns}.{fn}" for ns in ("L32", "L64") for fn in ("encOk", "encVal", "es", "element", "rotl", "rotr1", "ctz", "popc")) + "]")
+            L.append("  bv_decide (config := { timeout := 3000 })")
+        else:
+            L.append("  bv_decide (config := { timeout := 120 })")
         L.append("")
         names.append(f"sg{k}_is_model")
     L.append("end DynasmVerif.A64Static")
@@ -281,7 +335,7 @@ def emit_lean(tr, path):
 if __name__ == "__main__":
     tr = translate_all()
     print(len(tr), "groups")
-    for key, ok, val, pan, _ in tr[:6]:
+    for key, ok, val, pan, _, _ in tr[:6]:
         print(key, "| ok:", rx.lean(ok)[:150], "| val:", rx.lean(val)[:150])
     names = emit_lean(tr, "/tmp/A64Static.lean")
     print(len(names), "theorems")
